@@ -587,7 +587,7 @@ def rule_scratch(ctx):
                 ctx.bad(rid, key + "|closure-not-found", "cannot find the job closure of a *_with pool call", fn=f, pos=t[-2])
                 continue
             ctx.seen(g)
-            verdict = scratch_overwritten(g)
+            verdict = scratch_overwritten(g, 2, ctx.prog)
             if verdict is None:
                 ctx.ok(rid, key, "every iteration of the scratch.iter_mut() loop stores the element; other uses follow the loop", nontrivial=True, fn=g)
             else:
@@ -598,10 +598,10 @@ def rule_scratch(ctx):
     ctx.floor(rid + ".sites", 1)
 
 
-def scratch_overwritten(g):
-    """None if the closure g (params: env, scratch, item) rewrites its Vec/slice scratch before use, else a description"""
+def scratch_overwritten(g, SCR=2, prog=None, depth=0):
+    """None if the closure g (params: env, scratch, item) rewrites its Vec/slice scratch before use, else a description.
+    With `prog`, a scratch handed whole to a helper of the same crate is followed into the helper (SCR = the helper's parameter)."""
     from ..mirutil import find_path_edges, alias_closure, strip_generics
-    SCR = 2
     gd = Defs(g)
 
     def derives_from_scratch(l, depth=0):
@@ -659,6 +659,19 @@ def scratch_overwritten(g):
                 break
         if chain_has_iter_mut:
             loops.append((b, t))
+    if not loops and prog is not None and depth < 2:
+        rets = [b for b in range(len(g.blocks)) if not g.is_cleanup(b) and g.term(b)[0] == "ret"]
+        for b, t in g.calls():
+            c = callee(t)
+            h = (prog.fn(c.get("res") or c["fn"]) or prog.fn(c["fn"])) if c else None
+            if h is None or h.crate != g.crate or h.path == g.path:
+                continue
+            for i, a in enumerate(t[2]):
+                al = op_local(a)
+                if al is not None and derives_from_scratch(al) and all(g.dominates(b, r) for r in rets):
+                    v = scratch_overwritten(h, i + 1, prog, depth + 1)
+                    if v is None:
+                        return None
     if not loops:
         uses = any(SCR in [st[1][0]] or any(op_place(o) is not None and op_place(o)[0] == SCR for o in ([st[2][1]] if st[2][0] == "use" else []))
                    for blk in g.blocks if not blk[2] for st in blk[0] if st[0] == "=")
